@@ -1,42 +1,25 @@
-(* Witnesses for the two C20 finding classes (by evaluation). *)
+(* Witness for finding class C20-K2 and a regression lemma for the repaired C20-K1 (by evaluation). *)
 From Coq Require Import List Arith Bool NArith Lia.
 From GV Require Import Base.Result Gen.TokenTypes Gen.Defs Gen.Instr Model.Parser Model.BuilderWL Model.Compile
   Spec.WfCode Spec.Reloc Proofs.C05.Known Proofs.C05.Refuted Proofs.C20.Bounded.
 Import ListNotations.
 
-(* `( )` built after a program ending in EndExpression (the state [k1b_init] of
-   Proofs/C05/Refuted.v: 2 instructions, 1 jump entry): alone it builds to one
-   EndExpression with entry -> instruction 0; shared it emits NOTHING and its
-   entry names instruction 2, one past the end *)
+(* regression (former C20-K1): `( )` built after a program ending in
+   EndExpression (the state [k1b_init] of Proofs/C05/Refuted.v: 2 instructions,
+   1 jump entry).  Alone it builds to one EndExpression with entry -> instruction
+   0; before commit b7aaffe the shared build emitted NOTHING and its entry named
+   instruction 2, one past the end; now the shared build is the alone build,
+   relocated *)
 Definition k1_alone : bstate * nat := Eval vm_compute in built empty_init k1b_p.
 
-Lemma K1_alone_build : build (snd k1b_p) empty_init lit_all (build_fuel (snd k1b_p)) (fst k1b_p) = Ok k1_alone.
-Proof. vm_compute. reflexivity. Qed.
-Lemma K1_alone_code : instrs (fst k1_alone) = [(I_EndExpression, ONone)] /\ jumps (fst k1_alone) = [0].
-Proof. vm_compute. split; reflexivity. Qed.
-Lemma K1_shared_code : instrs (fst k1b_r) = [] /\ jumps (fst k1b_r) = [2] /\ snd k1b_r = 1.
+Lemma K1_repaired20 :
+  build (snd k1b_p) empty_init lit_all (build_fuel (snd k1b_p)) (fst k1b_p) = Ok k1_alone /\
+  build (snd k1b_p) k1b_init lit_all (build_fuel (snd k1b_p)) (fst k1b_p) = Ok k1b_r /\
+  instrs (fst k1_alone) = [(I_EndExpression, ONone)] /\ jumps (fst k1_alone) = [0] /\
+  instrs (fst k1b_r) = [(I_EndExpression, ONone)] /\ jumps (fst k1b_r) = [2] /\ snd k1b_r = 1 /\
+  relocated k1b_init (code_of_build k1_alone) (code_of_build k1b_r) = true /\
+  own_code k1b_init (code_of_build k1b_r) = true.
 Proof. vm_compute. repeat split; reflexivity. Qed.
-Lemma K1_not_relocated : relocated k1b_init (code_of_build k1_alone) (code_of_build k1b_r) = false.
-Proof. vm_compute. reflexivity. Qed.
-Lemma K1_not_own : own_code k1b_init (code_of_build k1b_r) = false.
-Proof. vm_compute. reflexivity. Qed.
-Lemma K1_elides : elides_across k1b_init (code_of_build k1_alone) (code_of_build k1b_r) = true.
-Proof. vm_compute. reflexivity. Qed.
-
-Lemma K1_refuted20 :
-  exists root nodes t r r0,
-    parse k1b_tokens = Ok (root, nodes) /\ tree_of nodes root = Some t /\ Known_C20_K1 k1b_init t /\
-    build nodes k1b_init lit_all (build_fuel nodes) root = Ok r /\
-    build nodes empty_init lit_all (build_fuel nodes) root = Ok r0 /\
-    relocated k1b_init (code_of_build r0) (code_of_build r) = false /\
-    own_code k1b_init (code_of_build r) = false /\
-    elides_across k1b_init (code_of_build r0) (code_of_build r) = true.
-Proof.
-  exists (fst k1b_p), (snd k1b_p), k1b_t, k1b_r, k1_alone.
-  split; [exact k1b_parse|]. split; [exact k1b_tree|]. split; [exact k1b_known|].
-  split; [exact k1b_build|]. split; [exact K1_alone_build|].
-  split; [exact K1_not_relocated|]. split; [exact K1_not_own|]. exact K1_elides.
-Qed.
 
 (* the empty program after the same program: entry 0 is the FIRST program's entry *)
 Definition k2_shared : bstate * nat := Eval vm_compute in built k1b_init (0, []).
